@@ -131,7 +131,12 @@ def _make_distribution(outcomes, pmf, base,
 
     ## Set the outcome class, ctor, and product function.
     ## Assumption: the class of each outcome is the same.
-    klass = outcomes[0].__class__
+    ## When a sample space is supplied it is authoritative (there may be no
+    ## stored outcome at all, and the stored outcomes need not exhaust it).
+    if isinstance(sample_space, SampleSpace):
+        klass = sample_space._outcome_class
+    else:
+        klass = outcomes[0].__class__
     d._outcome_class = klass
     d._outcome_ctor = get_outcome_ctor(klass)
     d._product = get_product_func(klass)
@@ -143,8 +148,13 @@ def _make_distribution(outcomes, pmf, base,
     d.outcomes = tuple(outcomes)
     d._outcomes_index = dict(zip(outcomes, range(len(outcomes))))
 
-    # Alphabet
-    d.alphabet = tuple(construct_alphabets(outcomes))
+    # Alphabet: that of the sample space, as in Distribution.__init__.
+    if isinstance(sample_space, CartesianProduct):
+        d.alphabet = tuple(sample_space.alphabets)
+    elif isinstance(sample_space, SampleSpace):
+        d.alphabet = tuple(construct_alphabets(sample_space._samplespace))
+    else:
+        d.alphabet = tuple(construct_alphabets(outcomes))
 
     # Sample space.
     if sample_space is None:
